@@ -469,7 +469,7 @@ def _check_form(ctx, gen, n, f, style, hermitian):
 
 def forms_search(ctx):
     rng = ctx.rng
-    N = 140 if ctx.thorough else 36
+    N = 160 if ctx.thorough else 60
     allok = True
     # fixed boundary forms first (DESIGN §4 F21 class and friends)
     fixed = [
@@ -541,7 +541,7 @@ def algebra_search(ctx):
 
     rng = ctx.rng
     allok = True
-    N = 60 if ctx.thorough else 18
+    N = 70 if ctx.thorough else 28
     for it in range(N):
         n = rng.choice([1, 2, 2, 3])
         g = FormGen(rng, n, ncustom=rng.choice([0, 0, 1]))
@@ -663,7 +663,7 @@ def eigcache_search(ctx):
 
     rng = ctx.rng
     allok = True
-    N = 40 if ctx.thorough else 14
+    N = 50 if ctx.thorough else 24
     for it in range(N):
         n = rng.choice([1, 2, 2, 3])
         g = FormGen(rng, n, ncustom=0)
@@ -1260,7 +1260,7 @@ def corr_forms(ctx):
     from qibo.hamiltonians import SymbolicHamiltonian
 
     rng = ctx.rng
-    N = 150 if ctx.thorough else 45
+    N = 160 if ctx.thorough else 60
     lines, meta = [], []
     for it in range(N):
         n = rng.choice([1, 2, 2, 3, 3, 4])
@@ -1311,7 +1311,13 @@ def corr_forms(ctx):
         d, v1, v2, v3 = [parse_gis(x) for x in outs[k0].split(";")]
         r1, r2 = [parse_gis(x) for x in outs[k0 + 1].split(";")]
         # (1) dense matrix: real _get_symbol_matrix vs model on the same tree
-        D = np.asarray(h.matrix).reshape(-1)
+        try:
+            D = np.asarray(h.matrix).reshape(-1)
+        except Exception as ex:
+            bad["dense"] += 1
+            fail(ctx, f"raises:matrix:{type(ex).__name__}", f"h.matrix raises {type(ex).__name__}: {ex} for {form_src(f, style)}",
+                 head + "h.matrix\n", observed=f"{type(ex).__name__}: {ex}", broken=["C15_corr_dense"])
+            continue
         if not np.array_equal(D, d):
             bad["dense"] += 1
             fail(ctx, zero_key(M, "dense:matrix"), f"real dense matrix of {form_src(f, style)} differs from the model of _get_symbol_matrix (and from the operator)"
